@@ -102,3 +102,14 @@ package api
 //@   props C08
 //@   modifies nothing
 //@   ensures result == c.callerAddress
+
+// ---- validator updates handed to CometBFT (C14) ----
+
+//@ import "github.com/cometbft/cometbft/abci/types"
+//@ ghost func UpdKey(u types.ValidatorUpdate) signature.PublicKey { return ufr[signature.PublicKey]("pkOfSum", u.PubKey.Sum) }
+
+//@ func PublicKeyToValidatorUpdate
+//@   trusted
+//@   modifies nothing
+//@   ensures UpdKey(result) == id && result.Power == power
+//@   note wraps the 32 key bytes in the CometBFT public-key envelope; the key is recoverable from the envelope (UpdKey)
